@@ -45,8 +45,8 @@ Record fdef := { fd_name : pystr; fd_toks : list FragText.tok; fd_dc : decor }.
 Definition def_text (d : fdef) : pystr := render (decorate (fd_toks d) (fd_dc d)).
 Definition def_str (d : fdef) : pystr := "#"%char :: fd_name d ++ "="%char :: def_text d.
 Definition frag_body (defs : list fdef) : pystr := join [","%char] (map def_str defs).
-Definition cut_string (a : Grammar.chain) (defs : list fdef) : pystr :=
-  dotted [block_of (Grammar.print_chain a); block_of (frag_body defs)].
+Definition cut_string_of (body : pystr) (defs : list fdef) : pystr := dotted [block_of body; block_of (frag_body defs)].
+Definition cut_string (a : Grammar.chain) (defs : list fdef) : pystr := cut_string_of (Grammar.print_chain a) defs.
 
 Lemma mk_text_final fo name text :
   (r <- strip_bonding_descriptors fo text ;; mk_text fo true name r)
@@ -223,75 +223,110 @@ Qed.
 Lemma print_chain_nonempty fo a : Grammar.wf fo a = true -> Grammar.print_chain a <> [].
 Proof. unfold Grammar.wf. destruct a as [|[n r m b brs] c]; [discriminate|]. intros _. cbn. discriminate. Qed.
 
-Section Main.
-  Variable fo : float_oracle.
-  Variable C : cut.
-  Variable a : Grammar.chain.
-  Variable defs : list fdef.
-  Variable B : graph.
-  Hypothesis W : wf_cut C.
-  (** the base text: a string of the documented grammar without branch multipliers that denotes a base graph of C *)
-  Hypothesis Hwf : Grammar.wf fo a = true.
-  Hypothesis Hbm : Grammar.has_branch_mult a = false.
-  Hypothesis Hnb : ~ In "}"%char (Grammar.print_chain a).
-  Hypothesis HB : Grammar.denote fo a = Ok B.
-  Hypothesis Hbase : is_base C B.
-  Hypothesis Hnames : get_node_attributes B (S "atomname") = [].
-  (** the fragment block *)
-  Hypothesis Hne : defs <> [].
-  Hypothesis Hdefs : defs_ok fo C defs.
+(** ---- for ANY base text the reader model reads (the AST form and the chain form, Compose/ChainBase.v, are instances) *)
+Theorem text_from_string_body fo C body defs B :
+  body <> [] -> ~ In "}"%char body -> ReaderImpl.read_cgsmiles fo (block_of body) = Ok B ->
+  defs <> [] -> defs_ok fo C defs ->
+  exists fd, from_text fo (cut_string_of body defs) = Ok (init B [fd] true true) /\ templates_ok C fd.
+Proof.
+  intros Hbne Hnb HB Hne Hdefs.
+  destruct (text_templates_ok fo C defs Hne Hdefs) as (fd & Hr & HT). exists fd. split; [|exact HT].
+  unfold from_text, from_string, cut_string_of.
+  change [block_of body; block_of (frag_body defs)] with (map block_of [body; frag_body defs]).
+  rewrite find_blocks_dotted.
+  - cbn [map]. rewrite HB. cbn [bind read_fragment_strings]. rewrite Hr. reflexivity.
+  - repeat constructor; [exact Hbne|exact Hnb|now apply frag_body_nonempty|].
+    apply frag_body_nobrace. exact (do_clean _ _ _ Hdefs).
+Qed.
 
-  Theorem text_from_string :
-    exists fd, from_text fo (cut_string a defs) = Ok (init B [fd] true true) /\ templates_ok C fd.
-  Proof.
-    destruct (text_templates_ok fo C defs Hne Hdefs) as (fd & Hr & HT). exists fd. split; [|exact HT].
-    unfold from_text, from_string, cut_string.
-    change [block_of (Grammar.print_chain a); block_of (frag_body defs)] with (map block_of [Grammar.print_chain a; frag_body defs]).
-    rewrite find_blocks_dotted.
-    - cbn [map]. change (block_of (Grammar.print_chain a)) with (Grammar.print true a).
-      rewrite (ReaderXAst.reader_sim_grammar fo true a Hwf Hbm), HB. cbn [bind read_fragment_strings]. rewrite Hr. reflexivity.
-    - repeat constructor; [now apply (print_chain_nonempty fo)|exact Hnb|now apply frag_body_nonempty|].
-      apply frag_body_nobrace. exact (do_clean _ _ _ Hdefs).
-  Qed.
+Definition heavy_atoms (C : cut) : Prop := forall x, In x (flat C) ->
+  (exists e, aget (S "element") (payload C x) = Some e) /\ (exists q, aget (S "charge") (payload C x) = Some q) /\
+  (exists h, aget (S "hcount") (payload C x) = Some (VInt h)) /\ Hydrogens.is_H (payload C x) = false.
 
-  (** the payload the all-atom step reads *)
-  Hypothesis Hatoms : forall x, In x (flat C) ->
+Theorem text_level_skeleton_body fo C body defs B : wf_cut C ->
+  body <> [] -> ~ In "}"%char body -> ReaderImpl.read_cgsmiles fo (block_of body) = Ok B ->
+  is_base C B -> get_node_attributes B (S "atomname") = [] -> defs <> [] -> defs_ok fo C defs -> heavy_atoms C ->
+  exists st fd m1 fg1 m2 fg2,
+    from_text fo (cut_string_of body defs) = Ok st /\ st_mol st = B /\ st_dicts st = [fd] /\ is_all_atom st = true /\
+    st_legacy st = true /\ templates_ok C fd /\
+    resolve_disconnected fd (next_meta (st_mol st)) = Ok (m1, fg1) /\
+    bonding_step true true (next_meta (st_mol st)) m1 fg1 = Ok (m2, fg2) /\
+    skeleton C true m2 /\ adj_nodup m2 /\ wf_graph m2 /\ Squash.squash_atoms m2 = Ok m2.
+Proof.
+  intros W Hbne Hnb HB Hbase Hnames Hne Hdefs Hatoms.
+  destruct (text_from_string_body fo C body defs B Hbne Hnb HB Hne Hdefs) as (fd & Hs & HT).
+  destruct (cut_all_atom_step C W fd HT B Hbase Hatoms) as (m1 & fg1 & m2 & fg2 & E1 & E2 & R).
+  exists (init B [fd] true true), fd, m1, fg1, m2, fg2. split; [exact Hs|]. split; [reflexivity|]. split; [reflexivity|].
+  split; [reflexivity|]. split; [reflexivity|]. split; [exact HT|]. cbn [st_mol init]. unfold next_meta. rewrite Hnames. cbn [set_nodes_from fold_left].
+  auto.
+Qed.
+
+(** every returned first resolve() of the full step model on the parsed state has the skeleton as its bonded graph *)
+Theorem text_level_step_body fo C body defs B : wf_cut C ->
+  body <> [] -> ~ In "}"%char body -> ReaderImpl.read_cgsmiles fo (block_of body) = Ok B ->
+  is_base C B -> get_node_attributes B (S "atomname") = [] -> defs <> [] -> defs_ok fo C defs -> heavy_atoms C ->
+  exists st fd, from_text fo (cut_string_of body defs) = Ok st /\ st_dicts st = [fd] /\
+    forall car out, resolve_step_full (st_legacy st) (is_all_atom st) fd (st_mol st) car = Ok out ->
+      fo_meta out = B /\ skeleton C true (fo_m2 out) /\ fo_m3 out = fo_m2 out /\ adj_nodup (fo_m2 out) /\ wf_graph (fo_m2 out).
+Proof.
+  intros W Hbne Hnb HB Hbase Hnames Hne Hdefs Hatoms.
+  destruct (text_level_skeleton_body fo C body defs B W Hbne Hnb HB Hbase Hnames Hne Hdefs Hatoms)
+    as (st & fd & m1 & fg1 & m2 & fg2 & Hs & Hm & Hd & Haa & Hl & HT & E1 & E2 & Sk & Adj & Wf & Sq).
+  exists st, fd. split; [exact Hs|]. split; [exact Hd|]. intros car out H.
+  rewrite Hl, Haa in H. unfold resolve_step_full in H. fold (next_meta (st_mol st)) in H. rewrite E1 in H. cbn [bind] in H.
+  rewrite E2 in H. cbn [bind] in H. rewrite Sq in H. cbn [bind] in H.
+  destruct (Hydrogens.rebuild_h_atoms_default m2 car) as [m4|]; cbn [bind] in H; [|discriminate].
+  destruct (sort_nodes_by_attr m4) as [m5|]; cbn [bind] in H; [|discriminate].
+  destruct (EzImpl.annotate_ez_isomers_cgsmiles m5) as [m6|]; cbn [bind] in H; [|discriminate].
+  destruct (annotate_fragments (next_meta (st_mol st)) m6) as [fgs|]; cbn [bind] in H; [|discriminate].
+  destruct (set_atom_names m6 (next_meta (st_mol st)) fgs) as [[m7 fgs']|]; cbn [bind] in H; [|discriminate].
+  inversion H; subst out. cbn [fo_meta fo_m2 fo_m3]. rewrite Hm. unfold next_meta. rewrite Hnames. cbn [set_nodes_from fold_left].
+  auto.
+Qed.
+
+(** ---- the base text as the printed form of an AST of the documented grammar *)
+Lemma ast_body fo a B : Grammar.wf fo a = true -> Grammar.has_branch_mult a = false -> Grammar.denote fo a = Ok B ->
+  Grammar.print_chain a <> [] /\ ReaderImpl.read_cgsmiles fo (block_of (Grammar.print_chain a)) = Ok B.
+Proof.
+  intros Hwf Hbm HB. split; [now apply (print_chain_nonempty fo)|].
+  change (block_of (Grammar.print_chain a)) with (Grammar.print true a). now rewrite (ReaderXAst.reader_sim_grammar fo true a Hwf Hbm).
+Qed.
+
+Theorem text_from_string fo C a defs B :
+  Grammar.wf fo a = true -> Grammar.has_branch_mult a = false -> ~ In "}"%char (Grammar.print_chain a) -> Grammar.denote fo a = Ok B ->
+  defs <> [] -> defs_ok fo C defs ->
+  exists fd, from_text fo (cut_string a defs) = Ok (init B [fd] true true) /\ templates_ok C fd.
+Proof.
+  intros Hwf Hbm Hnb HB Hne Hdefs. destruct (ast_body fo a B Hwf Hbm HB) as [N R].
+  exact (text_from_string_body fo C _ defs B N Hnb R Hne Hdefs).
+Qed.
+
+Theorem text_level_skeleton fo C a defs B : wf_cut C ->
+  Grammar.wf fo a = true -> Grammar.has_branch_mult a = false -> ~ In "}"%char (Grammar.print_chain a) -> Grammar.denote fo a = Ok B ->
+  is_base C B -> get_node_attributes B (S "atomname") = [] -> defs <> [] -> defs_ok fo C defs ->
+  (forall x, In x (flat C) ->
      (exists e, aget (S "element") (payload C x) = Some e) /\ (exists q, aget (S "charge") (payload C x) = Some q) /\
-     (exists h, aget (S "hcount") (payload C x) = Some (VInt h)) /\ Hydrogens.is_H (payload C x) = false.
+     (exists h, aget (S "hcount") (payload C x) = Some (VInt h)) /\ Hydrogens.is_H (payload C x) = false) ->
+  exists st fd m1 fg1 m2 fg2,
+    from_text fo (cut_string a defs) = Ok st /\ st_mol st = B /\ st_dicts st = [fd] /\ is_all_atom st = true /\
+    templates_ok C fd /\
+    resolve_disconnected fd (next_meta (st_mol st)) = Ok (m1, fg1) /\
+    bonding_step true true (next_meta (st_mol st)) m1 fg1 = Ok (m2, fg2) /\
+    skeleton C true m2 /\ adj_nodup m2 /\ wf_graph m2 /\ Squash.squash_atoms m2 = Ok m2.
+Proof.
+  intros W Hwf Hbm Hnb HB Hbase Hnames Hne Hdefs Hatoms. destruct (ast_body fo a B Hwf Hbm HB) as [N R].
+  destruct (text_level_skeleton_body fo C _ defs B W N Hnb R Hbase Hnames Hne Hdefs Hatoms)
+    as (st & fd & m1 & fg1 & m2 & fg2 & A1 & A2 & A3 & A4 & _ & A5).
+  exists st, fd, m1, fg1, m2, fg2. auto.
+Qed.
 
-  Theorem text_level_skeleton :
-    exists st fd m1 fg1 m2 fg2,
-      from_text fo (cut_string a defs) = Ok st /\ st_mol st = B /\ st_dicts st = [fd] /\ is_all_atom st = true /\
-      templates_ok C fd /\
-      resolve_disconnected fd (next_meta (st_mol st)) = Ok (m1, fg1) /\
-      bonding_step true true (next_meta (st_mol st)) m1 fg1 = Ok (m2, fg2) /\
-      skeleton C true m2 /\ adj_nodup m2 /\ wf_graph m2 /\ Squash.squash_atoms m2 = Ok m2.
-  Proof.
-    destruct text_from_string as (fd & Hs & HT).
-    destruct (cut_all_atom_step C W fd HT B Hbase Hatoms) as (m1 & fg1 & m2 & fg2 & E1 & E2 & R).
-    exists (init B [fd] true true), fd, m1, fg1, m2, fg2. split; [exact Hs|]. split; [reflexivity|]. split; [reflexivity|].
-    split; [reflexivity|]. split; [exact HT|]. cbn [st_mol init]. unfold next_meta. rewrite Hnames. cbn [set_nodes_from fold_left].
-    auto.
-  Qed.
-
-  (** every returned first resolve() of the full step model on the parsed state has the skeleton as its bonded graph *)
-  Theorem text_level_step :
-    exists st fd, from_text fo (cut_string a defs) = Ok st /\ st_dicts st = [fd] /\
-      forall car out, resolve_step_full (st_legacy st) (is_all_atom st) fd (st_mol st) car = Ok out ->
-        fo_meta out = B /\ skeleton C true (fo_m2 out) /\ fo_m3 out = fo_m2 out /\ adj_nodup (fo_m2 out) /\ wf_graph (fo_m2 out).
-  Proof.
-    destruct text_level_skeleton as (st & fd & m1 & fg1 & m2 & fg2 & Hs & Hm & Hd & Haa & HT & E1 & E2 & Sk & Adj & Wf & Sq).
-    exists st, fd. split; [exact Hs|]. split; [exact Hd|]. intros car out H.
-    assert (st_legacy st = true) as Hl.
-    { destruct text_from_string as (fd' & Hs' & _). rewrite Hs in Hs'. injection Hs' as ->. reflexivity. }
-    rewrite Hl, Haa in H. unfold resolve_step_full in H. fold (next_meta (st_mol st)) in H. rewrite E1 in H. cbn [bind] in H.
-    rewrite E2 in H. cbn [bind] in H. rewrite Sq in H. cbn [bind] in H.
-    destruct (Hydrogens.rebuild_h_atoms_default m2 car) as [m4|]; cbn [bind] in H; [|discriminate].
-    destruct (sort_nodes_by_attr m4) as [m5|]; cbn [bind] in H; [|discriminate].
-    destruct (EzImpl.annotate_ez_isomers_cgsmiles m5) as [m6|]; cbn [bind] in H; [|discriminate].
-    destruct (annotate_fragments (next_meta (st_mol st)) m6) as [fgs|]; cbn [bind] in H; [|discriminate].
-    destruct (set_atom_names m6 (next_meta (st_mol st)) fgs) as [[m7 fgs']|]; cbn [bind] in H; [|discriminate].
-    inversion H; subst out. cbn [fo_meta fo_m2 fo_m3]. rewrite Hm. unfold next_meta. rewrite Hnames. cbn [set_nodes_from fold_left].
-    auto.
-  Qed.
-End Main.
+Theorem text_level_step fo C a defs B : wf_cut C ->
+  Grammar.wf fo a = true -> Grammar.has_branch_mult a = false -> ~ In "}"%char (Grammar.print_chain a) -> Grammar.denote fo a = Ok B ->
+  is_base C B -> get_node_attributes B (S "atomname") = [] -> defs <> [] -> defs_ok fo C defs -> heavy_atoms C ->
+  exists st fd, from_text fo (cut_string a defs) = Ok st /\ st_dicts st = [fd] /\
+    forall car out, resolve_step_full (st_legacy st) (is_all_atom st) fd (st_mol st) car = Ok out ->
+      fo_meta out = B /\ skeleton C true (fo_m2 out) /\ fo_m3 out = fo_m2 out /\ adj_nodup (fo_m2 out) /\ wf_graph (fo_m2 out).
+Proof.
+  intros W Hwf Hbm Hnb HB Hbase Hnames Hne Hdefs Hatoms. destruct (ast_body fo a B Hwf Hbm HB) as [N R].
+  exact (text_level_step_body fo C _ defs B W N Hnb R Hbase Hnames Hne Hdefs Hatoms).
+Qed.
